@@ -312,3 +312,22 @@ class Earley:
         """largest i such that toks[:i] is a prefix of ... a string in the Earley sense (items exist);
         exact viability needs productivity of the remaining symbols: caller restricts to reduced grammars."""
         return len(self.chart(toks)) - 1
+
+
+# ---------------------------------------------------------------- lexical part for whole-tool runs
+def lex_part(g):
+    """token definitions for every token-id terminal of g (its own spelling as the lexeme) and white space"""
+    out = ["!ws : ' ' | '\\n' | '\\t' ;"]
+    for t in g.terms:
+        if not t.startswith('"') and any(t in b for (_, b, _, _) in g.prods):
+            out.append("%s : %s ;" % (t, " ".join("'%s'" % c for c in t)))
+    return "\n".join(out) + "\n"
+
+
+def full_text(g, pkg_h):
+    """lexical part + syntax part (header must come first in the syntax part)"""
+    return lex_part(g) + "\n" + g.text(pkg_h)
+
+
+def source_of(tokens):
+    return " ".join(t[1:-1] if t.startswith('"') else t for t in tokens).encode()
